@@ -774,7 +774,6 @@ class VectorStarSet(object):
         :param starset: StarSet, from which we pull nearly all of the info that we need
         """
         if starset.Nshells == 0: return
-        if starset == self.starset: return
         self.starset = starset
         dim = starset.crys.dim
         self.vecpos = []
